@@ -1122,3 +1122,261 @@ class BatchMon(Monitor):
                 nleaf = sum(len(leaves(p)) for p in d.stored_parts)
                 if d.level() != nleaf:
                     raise Violation('leaf_count', f'{d.name}.level()={d.level()} but holds {nleaf} parts')
+
+
+# ============================================================================ C18
+
+@monitor('schedule')
+class ScheduleMon(Monitor):
+    '''C18: the state of every action scheduler is what its timetable prescribes (reference timetable by repeated
+    addition, independent of the scheduler's own events); at every change, and once at start-up, the action is invoked
+    once per currently registered object, in registration order, with (scheduler, object, now, new state).'''
+    prop = 'C18'
+    _canon_skip = ('specs',)
+
+    def __init__(self):
+        self.ref = {}
+        self.specs = {}
+
+    def attach(self, w):
+        for d in w.spec['devices']:
+            if d['kind'] == 'scheduler':
+                self.add(d, 0)
+
+    def add(self, d, t0):
+        '''t0: the time at which the scheduler starts (0, or its creation time when created while running).'''
+        self.specs[d['name']] = d
+        self.ref[d['name']] = {'idx': 0, 'state': None, 'next': None, 'reg': [list(x) for x in d.get('targets', [])],
+                               't0': t0, 'nrec': 0, 'started': False}
+
+    def startup(self, w, name, tl):
+        '''Obligations at start-up: first state, one record, one action per registered object.'''
+        r = self.ref[name]
+        sch = self.specs[name]['schedule']
+        r['state'] = sch[0][1]
+        r['next'] = r['t0'] + sch[0][0]
+        r['started'] = True
+        self.expect(w, name, tl, r['t0'], True)
+
+    def expect(self, w, name, tl, now, changed):
+        r = self.ref[name]
+        acts = [t for t in tl if t[0] == 'sched_action' and t[1] == name]
+        want = [('sched_action', name, o, now, r['state'], mode) for o, mode in r['reg']] if changed else []
+        if acts != want:
+            raise Violation('actions', f'{name} at t={now}: actions invoked {acts}, expected (registration order, once each, '
+                                       f'(scheduler, object, now, new state)) {want}')
+        recs = w.env.simulation_data.get('schedule_update', {}).get(name, [])
+        new = [tuple(x) for x in recs[r['nrec']:]]
+        wantr = [(now, r['state'])] if changed else []
+        if new != wantr:
+            raise Violation('schedule_record', f'{name} at t={now}: schedule_update records {new}, expected {wantr}')
+        r['nrec'] = len(recs)
+        if acts:
+            w.facts.append('actions_invoked')
+
+    def start(self, w):
+        tl = list(w.hub.tlog)
+        for name in self.ref:
+            self.startup(w, name, tl)
+        self.static(w)
+
+    def before(self, w, label, ev):
+        for name, r in self.ref.items():
+            if r['started'] and r['next'] is not None and ev.time > r['next']:
+                raise Violation('missed_change', f'{name}: timetable prescribes a change at t={r["next"]} but the next event '
+                                                 f'executes at t={ev.time}')
+
+    def after(self, w, label, ev):
+        now = w.env.now
+        tl = w.hub.tlog
+        for t in tl:
+            if t[0] == 'reg':
+                r = self.ref[t[1]]
+                known = any(o == t[2] for o, m in r['reg'])
+                if t[4] == known:
+                    raise Violation('register_result', f'register_object({t[2]}) on {t[1]} returned {t[4]}, already '
+                                                       f'registered={known}')
+                if not known:
+                    r['reg'].append([t[2], t[3]])
+                w.facts.append('registered_during_run')
+            elif t[0] == 'unreg':
+                r = self.ref[t[1]]
+                known = any(o == t[2] for o, m in r['reg'])
+                if t[3] != known:
+                    raise Violation('register_result', f'unregister_object({t[2]}) on {t[1]} returned {t[3]}, registered={known}')
+                r['reg'] = [x for x in r['reg'] if x[0] != t[2]]
+                w.facts.append('unregistered_during_run')
+        for name, r in self.ref.items():
+            if not r['started']:
+                continue
+            sched = w.dev[name]
+            own = ev_owner(ev) is sched and ev_action_name(ev) == '_update_state' and not ev.cancelled
+            changed = False
+            if own:
+                sp = self.specs[name]
+                sch = sp['schedule']
+                if r['next'] is None:
+                    raise Violation('spurious_change', f'{name}: transition event at t={now} after a non-cyclical schedule ended')
+                if now != r['next']:
+                    raise Violation('change_time', f'{name}: transition at t={now}, timetable prescribes t={r["next"]}')
+                i = r['idx'] + 1
+                if not sp.get('cyclical', True) and i >= len(sch):
+                    r['next'] = None             # stays in its last state forever
+                    w.facts.append('schedule_ended')
+                else:
+                    i %= len(sch)
+                    if i == 0:
+                        w.facts.append('schedule_wrapped')
+                    r['idx'] = i
+                    r['state'] = sch[i][1]
+                    r['next'] = now + sch[i][0]
+                    changed = True
+                    w.facts.append('state_change')
+            self.expect(w, name, tl, now, changed)
+        self.static(w)
+
+    def static(self, w):
+        for name, r in self.ref.items():
+            if not r['started']:
+                continue
+            s = w.dev[name]
+            if s.current_state != r['state']:
+                raise Violation('state', f'{name}.current_state={s.current_state!r} at t={w.env.now}, timetable says {r["state"]!r}')
+            got = [getattr(o, 'name', '?') for o in s._registered_objects]
+            if got != [o for o, m in r['reg']]:
+                raise Violation('registry', f'{name}: registered objects {got}, expected {[o for o, m in r["reg"]]}')
+
+    def final(self, w):
+        for name, r in self.ref.items():
+            if r['started'] and r['next'] is not None and r['next'] <= w.env.now:
+                raise Violation('missed_change', f'{name}: run ended at {w.env.now} but the change due at {r["next"]} never happened')
+
+
+# ============================================================================ C19
+
+@monitor('sensors')
+class SensorMon(Monitor):
+    '''C19: sampling instants (k-fold repeated addition), first-then-every-(n+1)-th finished part, a copy per probe,
+    callbacks once each in order with (sensor, now, values), bounded aligned series, CMS hook once per measurement.'''
+    prop = 'C19'
+    _canon_skip = ('specs',)
+
+    def __init__(self):
+        self.ref = {}
+        self.specs = {}
+
+    def attach(self, w):
+        for d in w.spec['devices']:
+            if d['kind'] in ('psensor', 'osensor'):
+                self.add(w, d, 0)
+
+    def add(self, w, d, t0):
+        self.specs[d['name']] = d
+        cms = []
+        for c in w.spec['devices'] + w.spec.get('late', []):
+            if c['kind'] == 'cms' and d['name'] in c.get('sensors', []) and c['name'] not in cms:
+                cms.append(c['name'])
+        r = {'kind': d['kind'], 'series': [[] for _ in d['probes']], 'times': [], 'count': 0, 'last': [], 'cms': cms,
+             't0': t0}
+        if d['kind'] == 'psensor':
+            r['next'] = t0 + d['interval']
+        else:
+            r['finished'] = 0
+        self.ref[d['name']] = r
+
+    def before(self, w, label, ev):
+        for name, r in self.ref.items():
+            if r['kind'] == 'psensor' and ev.time > r['next'] and name in w.dev:
+                raise Violation('missed_sample', f'{name}: measurement due at t={r["next"]} but the next event executes at t={ev.time}')
+
+    def measure(self, w, name, values, now, tl_slice):
+        import copy
+        r = self.ref[name]
+        d = self.specs[name]
+        cap = d.get('data_capacity')
+        r['count'] += 1
+        r['last'] = copy.deepcopy(values)
+        for i, v in enumerate(values):
+            r['series'][i].append(copy.deepcopy(v))
+            if cap is not None and len(r['series'][i]) > cap:
+                r['series'][i].pop(0)
+        if r['kind'] == 'psensor':
+            r['times'].append(now)
+            if cap is not None and len(r['times']) > cap:
+                r['times'].pop(0)
+        want = [('sense_cb', name, n, now, values) for n in range(d.get('callbacks', 1))]
+        want += [('cms', c, name, now, values) for c in r['cms']]
+        got = [t for t in tl_slice if t[0] in ('sense_cb', 'cms') and (t[1] == name if t[0] == 'sense_cb' else t[2] == name)]
+        if got != want:
+            raise Violation('callbacks', f'{name} at t={now}: on-sense callbacks / CMS hook {got}, expected once each in '
+                                         f'registration order with (sensor, now, values): {want}')
+        w.facts.append('measurement')
+        if cap is not None and r['count'] > cap:
+            w.facts.append('series_trimmed')
+
+    def after(self, w, label, ev):
+        now = w.env.now
+        tl = w.hub.tlog
+        for name, r in self.ref.items():
+            if name not in w.dev:
+                continue
+            s = w.dev[name]
+            d = self.specs[name]
+            if r['kind'] == 'psensor':
+                own = ev_owner(ev) is s and ev_action_name(ev) == '_periodic_sense' and not ev.cancelled
+                if own:
+                    if now != r['next']:
+                        raise Violation('sample_time', f'{name}: measurement at t={now}, due at t={r["next"]} '
+                                                       f'(k-fold repeated addition of {d["interval"]})')
+                    vals = [getattr(w.dev[tgt], attr, None) for tgt, attr in d['probes']]
+                    self.measure(w, name, vals, now, tl)
+                    r['next'] = now + d['interval']
+                elif [t for t in tl if (t[0] == 'sense_cb' and t[1] == name) or (t[0] == 'cms' and t[2] == name)]:
+                    raise Violation('callbacks', f'{name}: callbacks invoked at t={now} without a measurement being due')
+            else:
+                n = d.get('sensing_interval', 0)
+                idx = [i for i, t in enumerate(tl) if t[0] == 'finished' and t[1] == d['processor']]
+                sensed_any = False
+                for j, i in enumerate(idx):
+                    t = tl[i]
+                    r['finished'] += 1
+                    hi = idx[j + 1] if j + 1 < len(idx) else len(tl)
+                    sl = tl[i:hi]
+                    if (r['finished'] - 1) % (n + 1) == 0:
+                        vals = [{'quality': t[4], 'value': t[5], 'id': t[2]}[a] for a in d['probes']]
+                        self.measure(w, name, vals, now, sl)
+                        sensed_any = True
+                    elif [x for x in sl if (x[0] == 'sense_cb' and x[1] == name) or (x[0] == 'cms' and x[2] == name)]:
+                        raise Violation('sensing_interval', f'{name}: part number {r["finished"]} finished by {d["processor"]} was '
+                                                            f'measured; sensing interval {n} (first, then every {n + 1}-th)')
+                if not idx and [x for x in tl if (x[0] == 'sense_cb' and x[1] == name) or (x[0] == 'cms' and x[2] == name)]:
+                    raise Violation('callbacks', f'{name}: callbacks invoked at t={now} although no part was finished')
+        self.static(w)
+
+    def start(self, w):
+        self.static(w)
+
+    def static(self, w):
+        for name, r in self.ref.items():
+            if name not in w.dev:
+                continue
+            s = w.dev[name]
+            d = self.specs[name]
+            cap = d.get('data_capacity')
+            for i, p in enumerate(s.probes):
+                got = s.data.get(p)
+                if got != r['series'][i]:
+                    raise Violation('series', f'{name}: stored series of probe {i} is {got}, expected the last '
+                                              f'min(count, capacity={cap}) copies of the probed values {r["series"][i]}')
+            if r['kind'] == 'psensor':
+                got = s.data.get('time')
+                if got != r['times']:
+                    raise Violation('time_series', f'{name}: stored time series {got}, expected {r["times"]} (same length '
+                                                   f'as the probe series, capacity {cap})')
+            if list(s.last_sense) != r['last']:
+                raise Violation('last_sense', f'{name}.last_sense={s.last_sense}, expected {r["last"]}')
+
+    def final(self, w):
+        for name, r in self.ref.items():
+            if r['kind'] == 'psensor' and name in w.dev and r['next'] <= w.env.now:
+                raise Violation('missed_sample', f'{name}: run ended at {w.env.now}, measurement due at {r["next"]} never taken')
